@@ -244,9 +244,20 @@ def job_integrate(T, Fc, asc, derived=None):
         out['spec_sum'] = IG.spectrum(fr, mode='sum')
         out['tser'] = IG.timeseries(fr)
         out['arr'] = IG.integrate(D, axis='t', mode='mean')
+        # an operation applied to the result of another: integrating a Spectrum / TimeSeries object again
+        out['sp_t'] = IG.integrate(out['spec'], axis='t', mode='mean')        # one row: the spectrum itself
+        out['sp_f'] = IG.integrate(out['spec'], axis='f', mode='sum')         # its total
+        out['ts_f'] = IG.integrate(out['tser'], axis='f', mode='sum')         # one column: the series itself
+        out['ts_t'] = IG.integrate(out['tser'], axis='t', mode='mean')        # its mean
         return fr, out
     with patches():
         leaf = core.run_single(run, pre)
+    if leaf.kind == 'exc' or isinstance(leaf.value, BaseException):
+        r, _ = core.check(pre + leaf.pc + leaf.side, timeout_ms=30000)
+        recs.append(q(tag + ':noexc', r, detail=repr(leaf.value)))
+        if r == 'sat':
+            recs.append(cex('C17:integrate:raise', f'integration raised {leaf.value!r}', dict(fn='integrate', T=T, Fc=Fc, asc=asc, derived=derived), name=tag + ':noexc'))
+        return recs
     fr, out = leaf.value
     Dt = [[lift(D[i, j]) for j in range(Fc)] for i in range(T)]
     colsum = [sum((Dt[i][j] for i in range(1, T)), Dt[0][j]) for j in range(Fc)]
@@ -266,6 +277,10 @@ def job_integrate(T, Fc, asc, derived=None):
         vec(f'{axis}/mean', out[(axis, 'mean')], [c / Fc for c in rowsum])
         vec(f'{axis}/sum', out[(axis, 'sum')], rowsum)
     vec('array input', out['arr'], [c / T for c in colsum])
+    vec('integrate(spectrum, t)', out['sp_t'], [c / T for c in colsum])
+    vec('integrate(spectrum, f)', out['sp_f'], [sum(([c / T for c in colsum])[1:], colsum[0] / T)])
+    vec('integrate(timeseries, f)', out['ts_f'], [c / Fc for c in rowsum])
+    vec('integrate(timeseries, t)', out['ts_t'], [sum(([c / Fc for c in rowsum])[1:], rowsum[0] / Fc) / T])
     sp, sps, tsr = out['spec'], out['spec_sum'], out['tser']
     if sp.data.shape != (1, Fc) or tsr.data.shape != (T, 1) or len(sp.fs) != Fc or len(tsr.ts) != T:
         py.append('wrapper shapes')
@@ -500,6 +515,13 @@ def replay_integrate(p):
         elif type(w).__name__ != 'Spectrum' or w.data.shape != (1, fr.fchans) or not np.allclose(w.fs, fr.fs) or not np.isclose(w.df, fr.df) or not np.allclose(w.data[0], D.mean(axis=0)):
             bad.append(f"integrate(axis={axis!r}, as_frame=True): {type(w).__name__} with df={w.df}, shape {w.data.shape}; expected a Spectrum on the parent's frequency axis")
     sp, ts = stg.spectrum(fr), stg.timeseries(fr)
+    try:
+        again = [np.allclose(stg.integrate(sp, axis='t', mode='mean'), D.mean(axis=0)), np.allclose(stg.integrate(sp, axis='f', mode='sum'), [D.mean(axis=0).sum()]),
+                 np.allclose(stg.integrate(ts, axis='f', mode='sum'), D.mean(axis=1)), np.allclose(stg.integrate(ts, axis='t', mode='mean'), [D.mean()])]
+        if not all(again):
+            bad.append(f"integrating a Spectrum / TimeSeries object again: (spectrum,t) (spectrum,f) (series,f) (series,t) correct = {again}")
+    except Exception as e:
+        bad.append(f"integrating a Spectrum / TimeSeries object again raised {type(e).__name__}: {e}")
     if not np.allclose(sp.data[0], D.mean(axis=0)) or not np.allclose(sp.fs, fr.fs) or not np.allclose(ts.data[:, 0], D.mean(axis=1)) or not np.allclose(ts.ts, fr.ts):
         bad.append('spectrum/timeseries values or axes')
     bad += [f"spectrum {b}" for b in _attrs(sp, fr) if not b.startswith('dt')] + [f"timeseries {b}" for b in _attrs(ts, fr) if not b.startswith('df')]
